@@ -15,6 +15,7 @@
 #include <dirent.h>
 #include <signal.h>
 #include <pthread.h>
+#include <sched.h>
 #include <sys/stat.h>
 #include <sys/types.h>
 #include <sys/socket.h>
